@@ -1429,3 +1429,464 @@ Proof.
       * rewrite H4, Nx. reflexivity.
       * congruence.
 Qed.
+
+(* ================================================================== the specification, unfolded along the stream *)
+
+Fixpoint spec_nf_events (ds names frames : list (val * val)) (nf : list ((string * string) * (Z * Z)))
+         (evs : list dict) : list ((string * string) * (Z * Z)) :=
+  match evs with
+  | [] => nf
+  | e :: r =>
+      spec_nf_events ds names frames
+        (fst (spec_items frames (dn_of names (get_or "descriptor" e VNone)) (get_or "seq_num" e VNone) nf (ext_items_of ds e))) r
+  end.
+
+Lemma spec_events_cons : forall ds names frames nf e r,
+  spec_events ds names frames nf (e :: r) =
+  snd (spec_items frames (dn_of names (get_or "descriptor" e VNone)) (get_or "seq_num" e VNone) nf (ext_items_of ds e))
+  ++ spec_events ds names frames
+       (fst (spec_items frames (dn_of names (get_or "descriptor" e VNone)) (get_or "seq_num" e VNone) nf (ext_items_of ds e))) r.
+Proof.
+  intros. cbn [spec_events]. unfold dn_of.
+  destruct (spec_items frames _ _ nf (ext_items_of ds e)) as [nf2 l]. reflexivity.
+Qed.
+
+Lemma spec_events_app : forall ds names frames a nf b,
+  spec_events ds names frames nf (a ++ b) =
+  spec_events ds names frames nf a ++ spec_events ds names frames (spec_nf_events ds names frames nf a) b.
+Proof.
+  induction a as [|e a IH]; intros nf b; [reflexivity|].
+  change ((e :: a) ++ b) with (e :: (a ++ b)).
+  rewrite (spec_events_cons ds names frames nf e (a ++ b)), (spec_events_cons ds names frames nf e a), IH.
+  cbn [spec_nf_events]. now rewrite app_assoc.
+Qed.
+
+Lemma spec_nf_events_app : forall ds names frames a nf b,
+  spec_nf_events ds names frames nf (a ++ b) = spec_nf_events ds names frames (spec_nf_events ds names frames nf a) b.
+Proof. induction a as [|e a IH]; intros nf b; [reflexivity|]. simpl. apply IH. Qed.
+
+Lemma spec_items_ids : forall frames dn q items nf, map fst (snd (spec_items frames dn q nf items)) = map snd items.
+Proof.
+  induction items as [|[k id] items IH]; intros nf; [reflexivity|].
+  rewrite spec_items_cons. cbn [snd map fst]. now rewrite IH.
+Qed.
+
+Lemma spec_events_ids : forall ds names frames evs nf,
+  map fst (spec_events ds names frames nf evs) = flat_map (fun e => map snd (ext_items_of ds e)) evs.
+Proof.
+  induction evs as [|e evs IH]; intros nf; [reflexivity|].
+  rewrite spec_events_cons, map_app, spec_items_ids, IH. reflexivity.
+Qed.
+
+Lemma expected_ids : forall G, map (fun t : dict * string * val => snd t) (expected_refs G) = map fst (spec_ranges G).
+Proof.
+  intros G. unfold spec_ranges. rewrite spec_events_ids. unfold expected_refs.
+  induction (expand_events G) as [|e evs IH]; [reflexivity|]. cbn [flat_map]. rewrite map_app, IH. f_equal.
+  rewrite map_map. reflexivity.
+Qed.
+
+(* ------------------------------------------------------------------ lists of distinct atoms *)
+
+Lemma nodup_atoms_app : forall a b, nodup_atoms (a ++ b) = true ->
+  nodup_atoms a = true /\ nodup_atoms b = true /\ (forall x u, In x a -> In u b -> atom_eqb x u = false).
+Proof.
+  induction a as [|y a IH]; intros b H.
+  - simpl in *. repeat split; auto. intros x u [].
+  - simpl app in H. destruct (nodup_atoms_cons _ _ H) as (Ay & Dy & H'). destruct (IH _ H') as (Na & Nb & D).
+    repeat split; auto.
+    + simpl. rewrite Ay, Na. cbn. rewrite andb_true_r. apply negb_true_iff.
+      destruct (existsb (atom_eqb y) a) eqn:E; [|reflexivity]. apply existsb_exists in E as (u & Hu & Eu).
+      rewrite (Dy u) in Eu by (apply in_or_app; now left). discriminate.
+    + intros x u [<- | Hx] Hu; [apply Dy; apply in_or_app; now right | now apply D].
+Qed.
+
+Lemma nodup_atoms_all_atoms : forall l, nodup_atoms l = true -> forall x, In x l -> is_atom x = true.
+Proof.
+  induction l as [|y l IH]; intros H x Hx; [contradiction|].
+  destruct (nodup_atoms_cons _ _ H) as (A & _ & H'). destruct Hx as [<- | Hx]; auto.
+Qed.
+
+Lemma existsb_atom_in : forall x l, is_atom x = true -> In x l -> existsb (atom_eqb x) l = true.
+Proof. intros x l A I. apply existsb_exists. exists x. split; [exact I | now apply atom_eqb_refl]. Qed.
+
+Lemma existsb_app_l : forall (f : val -> bool) a b, existsb f a = true -> existsb f (a ++ b) = true.
+Proof. intros. rewrite existsb_app, H. reflexivity. Qed.
+
+(* a frame-carrying Datum still to come, for an id already seen in an Event, is finding C35-b *)
+Lemma late_frame_is_finding : forall post seen id f,
+  existsb is_page_doc post = false -> existsb (atom_eqb id) seen = true ->
+  vget id (datum_frames post) = Some (VInt f) -> finding_b_from seen post = true.
+Proof.
+  induction post as [|[n d] post IH]; intros seen id f NP S V; [discriminate|].
+  simpl in NP. apply orb_false_iff in NP as [NP1 NP2].
+  change ((n, d) :: post) with ([(n, d)] ++ post) in V. rewrite datum_frames_app, vget_app in V.
+  cbn [finding_b_from]. apply orb_true_iff.
+  destruct (vget id (datum_frames [(n, d)])) as [v|] eqn:V1.
+  - left. inversion V; subst v. unfold datum_frames in V1. cbn [flat_map] in V1. rewrite app_nil_r in V1.
+    destruct (String.eqb n "datum") eqn:En.
+    + apply String.eqb_eq in En. subst n. destruct (dget "datum_id" (dict_of d)) as [id'|] eqn:Gid; [|discriminate].
+      cbn [vget] in V1. destruct (atom_eqb id id') eqn:Eq; [|discriminate]. apply atom_eqb_eq in Eq. subst id'.
+      inversion V1 as [FV]. destruct d; try discriminate. cbn [dict_of] in *.
+      rewrite (frame_ids_datum kv id Gid) by (unfold frame_val; rewrite FV; discriminate).
+      cbn. now rewrite S.
+    + unfold is_page_doc in NP1. cbn in NP1. apply orb_false_iff in NP1 as [_ NP1]. rewrite NP1 in V1. discriminate.
+  - right. eapply IH; eauto. now apply existsb_app_l.
+Qed.
+
+Lemma nodup_atoms_iff : forall l, nodup_atoms l = true <-> (Forall (fun x => is_atom x = true) l /\ NoDup l).
+Proof.
+  induction l as [|y l IH]; split.
+  - intros _. split; constructor.
+  - reflexivity.
+  - intros H. destruct (nodup_atoms_cons _ _ H) as (A & D & H'). apply IH in H' as [F N]. split; constructor; auto.
+    intros Hin. assert (X := D y Hin). rewrite atom_eqb_refl in X by exact A. discriminate.
+  - intros [F N]. inversion F; subst. inversion N; subst. simpl. rewrite H1. cbn.
+    rewrite (proj2 IH (conj H2 H4)), andb_true_r. apply negb_true_iff.
+    destruct (existsb (atom_eqb y) l) eqn:E; [|reflexivity]. apply existsb_exists in E as (u & Hu & Eu).
+    apply atom_eqb_eq in Eu. subst. contradiction.
+Qed.
+
+Lemma nodup_atoms_perm : forall l l', Permutation l l' -> nodup_atoms l' = true -> nodup_atoms l = true.
+Proof.
+  intros l l' P H. apply nodup_atoms_iff in H as [F N]. apply nodup_atoms_iff. split.
+  - eapply Permutation_Forall; [apply Permutation_sym; exact P | exact F].
+  - eapply Permutation_NoDup; [apply Permutation_sym; exact P | exact N].
+Qed.
+
+Lemma ext_items_in_data_values : forall ds e kid, In kid (ext_items_of ds e) -> In (snd kid) (data_values "event" (VDict e)).
+Proof.
+  intros ds e kid H. unfold ext_items_of in H. destruct (vget _ ds); [|contradiction].
+  apply filter_In in H as [H _]. unfold data_values. cbn. unfold get_or in H.
+  destruct (dget "data" e) as [[]|]; cbn in H; try contradiction. now apply in_map.
+Qed.
+
+Lemma ext_items_in_data_values' : forall ds t kid, In kid (ext_items_of ds (dict_of t)) -> In (snd kid) (data_values "event" t).
+Proof.
+  intros ds t kid H. destruct t; try (unfold ext_items_of in H; cbn in H; destruct (vget _ ds); cbn in H; contradiction).
+  now apply (ext_items_in_data_values ds).
+Qed.
+
+(* ================================================================== the induction over the stream *)
+
+Section Main.
+  Variable G : list (string * val).
+  Variable s0 : store.
+  Let frames := datum_frames G.
+  Let ds := descriptors G.
+  Let names := descriptor_names G.
+
+  Hypothesis H_no : keys_overlap G = false.
+  Hypothesis H_ndesc : nodup_atoms (map fst (descriptors G)) = true.
+  Hypothesis H_rfdesc : forallb (fun p : val * val => reserved_free (dict_of (snd p))) (descriptors G) = true.
+  Hypothesis H_ndat : nodup_atoms (map fst (datum_frames G)) = true.
+  Hypothesis H_nexp : nodup_atoms (map fst (spec_ranges G)) = true.
+  Hypothesis H_dis : forall u p, In u (map fst (spec_ranges G)) -> In p (passthrough_uids G) -> atom_eqb p u = false.
+
+  Definition sp_of (P : list (string * val)) := spec_events ds names frames [] (expand_events P).
+  Definition nf_of (P : list (string * val)) := spec_nf_events ds names frames [] (expand_events P).
+
+  Definition Final (m : mst) : Prop :=
+    out_uids "event" (out m) = map (fun e => get_or "uid" e VNone) (expand_events G) /\
+    exists Cf, Permutation (out_uids "stream_datum" (out m)) (passthrough_uids G ++ Cf) /\
+               Permutation Cf (map fst (spec_ranges G)) /\
+               forall id, In id Cf -> exists rg, rget id (spec_ranges G) = Some rg /\
+                  sdat_ranges id (out m) = Some (rg, ((fst rg + 1)%Z, (snd rg + 1)%Z)).
+
+  Lemma sp_of_nonevent : forall P n t, String.eqb n "event" = false -> String.eqb n "event_page" = false ->
+    sp_of (P ++ [(n, t)]) = sp_of P /\ nf_of (P ++ [(n, t)]) = nf_of P.
+  Proof.
+    intros P n t H1 H2. unfold sp_of, nf_of. rewrite expand_events_app.
+    assert (X : expand_events [(n, t)] = []) by (unfold expand_events; cbn; now rewrite H1, H2).
+    rewrite X, app_nil_r. auto.
+  Qed.
+
+  Lemma reads_step : forall refs post (n : string) (t : val) post',
+    post = (n, t) :: post' ->
+    Forall2 (fun (r nd : string * val) => fst r = fst nd /\ reads s0 (snd r) (snd nd) /\ noref (snd nd) = true) refs post ->
+    exists ref refs', refs = (n, ref) :: refs' /\ reads s0 ref t /\ noref t = true /\
+      Forall2 (fun (r nd : string * val) => fst r = fst nd /\ reads s0 (snd r) (snd nd) /\ noref (snd nd) = true) refs' post'.
+  Proof.
+    intros refs post n t post' -> F. inversion F as [|[n' ref] nd refs' p' (A & B & C0) F']; subst.
+    simpl in *. subst n'. eauto 10.
+  Qed.
+
+  Lemma pt_nonsd : forall P n t, String.eqb n "stream_datum" = false -> passthrough_uids (P ++ [(n, t)]) = passthrough_uids P.
+  Proof. intros. rewrite passthrough_uids_app. unfold passthrough_uids at 2. cbn. rewrite H. apply app_nil_r. Qed.
+  Lemma df_nondatum : forall P n t, String.eqb n "datum" = false -> String.eqb n "datum_page" = false ->
+    datum_frames (P ++ [(n, t)]) = datum_frames P.
+  Proof. intros. rewrite datum_frames_app. unfold datum_frames at 2. cbn. rewrite H, H0. apply app_nil_r. Qed.
+
+  (* any document other than an event or the stop *)
+  Lemma other_step : forall P post n t ref x x1 C seen,
+    G = P ++ (n, t) :: post ->
+    String.eqb n "event" = false -> String.eqb n "stop" = false ->
+    String.eqb n "event_page" = false -> String.eqb n "datum_page" = false ->
+    J frames x (nf_of P) (sp_of P) C (passthrough_uids P) (map fst (datum_frames P)) -> K P x ->
+    reads (st x) ref t ->
+    existsb (fun id => existsb (atom_eqb id) seen) (frame_ids n t) = false ->
+    (forall u, In u (map fst (sp_of P)) -> existsb (atom_eqb u) seen = true) ->
+    dispatch Deep n ref x = (x1, inl tt) ->
+    J frames x1 (nf_of (P ++ [(n, t)])) (sp_of (P ++ [(n, t)])) C (passthrough_uids (P ++ [(n, t)]))
+      (map fst (datum_frames (P ++ [(n, t)]))) /\ K (P ++ [(n, t)]) x1 /\ st x1 = st x.
+  Proof.
+    intros P post n t ref x x1 C seen EG Ne Ns Nep Ndp Jx Kx Rt NF1 Seen D.
+    destruct (sp_of_nonevent P n t Ne Nep) as [E1 E2]. rewrite E1, E2.
+    unfold dispatch in D. rewrite Ne, Ns, Nep, Ndp in D.
+    destruct (String.eqb n "start") eqn:N1.
+    { apply String.eqb_eq in N1. subst n. rewrite (h_start_ok _ _ _ _ Rt D).
+      rewrite pt_nonsd, df_nondatum by reflexivity.
+      destruct (quiet_step G P "start" t x (upd_out x (out x ++ [("start", t)])) (nf_of P) (sp_of P) C
+                  (passthrough_uids P) (map fst (datum_frames P)) t) as [J1 K1]; auto. }
+    destruct (String.eqb n "descriptor") eqn:N3.
+    { apply String.eqb_eq in N3. subst n. rewrite pt_nonsd, df_nondatum by reflexivity.
+      eapply descriptor_step; eauto.
+      rewrite forallb_forall in H_rfdesc.
+      assert (X : descriptors G = descriptors P ++ [(get_or "uid" (dict_of t) VNone, get_or "data_keys" (dict_of t) (VDict []))] ++ descriptors post).
+      { rewrite EG, descriptors_app. change (("descriptor", t) :: post) with ([("descriptor", t)] ++ post).
+        rewrite descriptors_app. reflexivity. }
+      apply (H_rfdesc (get_or "uid" (dict_of t) VNone, get_or "data_keys" (dict_of t) (VDict []))).
+      rewrite X. apply in_or_app. right. now left. }
+    destruct (String.eqb n "resource") eqn:N4.
+    { apply String.eqb_eq in N4. subst n. rewrite pt_nonsd, df_nondatum by reflexivity.
+      destruct (h_resource_ok _ _ _ D) as (O & S & c & Nx).
+      destruct (quiet_step G P "resource" t x x1 (nf_of P) (sp_of P) C
+                  (passthrough_uids P) (map fst (datum_frames P)) t) as [J1 K1]; auto; rewrite ?Nx; auto. }
+    destruct (String.eqb n "stream_resource") eqn:N5.
+    { apply String.eqb_eq in N5. subst n. rewrite pt_nonsd, df_nondatum by reflexivity.
+      destruct (h_stream_resource_ok _ _ _ D) as (snap & ->).
+      destruct (quiet_step G P "stream_resource" t x (upd_out x (out x ++ [("stream_resource", snap)])) (nf_of P) (sp_of P) C
+                  (passthrough_uids P) (map fst (datum_frames P)) snap) as [J1 K1]; auto. }
+    destruct (String.eqb n "stream_datum") eqn:N6.
+    { apply String.eqb_eq in N6. subst n. rewrite df_nondatum by reflexivity.
+      eapply stream_datum_step; eauto. }
+    destruct (String.eqb n "datum") eqn:N7.
+    { apply String.eqb_eq in N7. subst n. rewrite pt_nonsd by reflexivity.
+      eapply datum_step; eauto. }
+    exfalso. exact (fail_inl _ _ _ _ _ D).
+  Qed.
+
+  Lemma run_main : forall post P refs x i m C seen,
+    G = P ++ post ->
+    Forall2 (fun (r nd : string * val) => fst r = fst nd /\ reads s0 (snd r) (snd nd) /\ noref (snd nd) = true) refs post ->
+    st x = s0 ->
+    J frames x (nf_of P) (sp_of P) C (passthrough_uids P) (map fst (datum_frames P)) -> K P x ->
+    events_ok (descriptors P) post = true -> stop_last post = true -> existsb is_page_doc post = false ->
+    finding_b_from seen post = false ->
+    (forall u, In u (map fst (sp_of P)) -> existsb (atom_eqb u) seen = true) ->
+    run_from Deep i refs x [] = (m, []) ->
+    Final m.
+  Proof.
+    induction post as [|[n t] post IH]; intros P refs x i m C seen EG FR Sx Jx Kx EO SL NP NF Seen RUN; [discriminate|].
+    destruct (reads_step _ _ n t post eq_refl FR) as (ref & refs' & -> & Rt & Nt & FR').
+    apply run_from_ok_step in RUN as (x1 & D & RUN). rewrite <- Sx in Rt.
+    assert (EG' : G = (P ++ [(n, t)]) ++ post) by (rewrite <- app_assoc; exact EG).
+    cbn [finding_b_from] in NF. apply orb_false_iff in NF as [NF1 NF2].
+    cbn [existsb] in NP. apply orb_false_iff in NP as [NP1 NP2].
+    unfold is_page_doc in NP1. cbn [fst] in NP1. apply orb_false_iff in NP1 as [NPe NPd].
+    destruct (String.eqb n "stop") eqn:Nstop.
+    - (* the stop document: it is the last one *)
+      apply String.eqb_eq in Nstop. subst n.
+      assert (post = []).
+      { destruct post as [|p post]; [reflexivity|]. cbn in SL. discriminate. }
+      subst post. inversion FR'; subst refs'. simpl in RUN. injection RUN as Em. subst m.
+      assert (EP : expand_events G = expand_events P).
+      { rewrite EG, expand_events_app. cbn. now rewrite app_nil_r. }
+      assert (ESP : spec_ranges G = sp_of P) by (unfold spec_ranges, sp_of; now rewrite EP).
+      assert (EPT : passthrough_uids G = passthrough_uids P).
+      { rewrite EG, passthrough_uids_app. cbn. now rewrite app_nil_r. }
+      unfold dispatch in D. cbn in D. unfold h_stop in D.
+      apply bind_inl in D as (y & d & G0 & D).
+      assert (y = x).
+      { destruct ref; try (now apply ret_inl in G0). unfold shallow in G0.
+        apply bind_inl in G0 as (z & s & G1 & G0). apply get_st_inl in G1 as [-> ->]. now apply of_opt_inl in G0. }
+      subst y. clear G0.
+      apply bind_inl in D as (y & nn & G2 & D). apply get_ns_inl in G2 as [-> ->].
+      apply bind_inl in D as (y & u & G3 & D). destruct u.
+      destruct Jx as [Ji Jn Jc Js Ja Jr Jp Jm]. destruct Kx as [KE KI KN KV].
+      assert (NDall : nodup_atoms (C ++ map ref_id (ext_refs (ns x))) = true).
+      { eapply nodup_atoms_perm; [exact Ja|]. rewrite <- ESP. exact H_nexp. }
+      destruct (nodup_atoms_app _ _ NDall) as (_ & NDR & DCR).
+      destruct (stop_loop frames (sp_of P) (passthrough_uids P) (ext_refs (ns x)) x C y) as (H1 & H2 & H3 & H4 & H5); auto.
+      + intros [[[id k] du] sq] Hr. cbn [ref_id fst snd]. exact (Jp _ _ _ _ Hr).
+      + intros r p Hr Hp. apply in_app_or in Hp as [Hp | Hp].
+        * apply H_dis; [|now rewrite EPT]. rewrite ESP. eapply Permutation_in; [exact Ja|].
+          apply in_or_app. right. now apply in_map.
+        * apply DCR; [exact Hp | now apply in_map].
+      + apply emit_inl in D as (snap & _ & ->). unfold Final. cbn [out upd_out]. split.
+        * rewrite out_uids_app. unfold out_uids at 2. cbn. rewrite app_nil_r, H3, KV, EP. reflexivity.
+        * exists (C ++ map ref_id (ext_refs (ns x))). rewrite out_uids_app. unfold out_uids at 2. cbn. rewrite app_nil_r.
+          rewrite EPT, ESP. split; [exact H1|]. split; [exact Ja|].
+          intros id Hin. destruct (H2 _ Hin) as (rg & R1 & R2). exists rg. split; [exact R1 | now apply sdat_ranges_app_some].
+    - assert (post <> []) as Hpost.
+      { intros ->. cbn in SL. congruence. }
+      assert (SL' : stop_last post = true).
+      { destruct post as [|p post]; [congruence|]. cbn in SL. rewrite Nstop in SL. exact SL. }
+      destruct (String.eqb n "event") eqn:Nev.
+      + (* an event *)
+        apply String.eqb_eq in Nev. subst n.
+        cbn [events_ok] in EO. replace (String.eqb "event" "event") with true in EO by reflexivity.
+        apply andb_true_iff in EO as [EO EO4]. apply andb_true_iff in EO as [EO EO3]. apply andb_true_iff in EO as [EO1 EO2].
+        set (d := dict_of t) in *. set (du := get_or "descriptor" d VNone) in *.
+        set (items := ext_items_of (descriptors G) d).
+        assert (EE : expand_events (P ++ [("event", t)]) = expand_events P ++ [d]).
+        { rewrite expand_events_app. reflexivity. }
+        assert (SPd : sp_of (P ++ [("event", t)]) =
+                      sp_of P ++ snd (spec_items frames (dn_of names du) (get_or "seq_num" d VNone) (nf_of P) items)).
+        { unfold sp_of. rewrite EE, spec_events_app. f_equal. rewrite spec_events_cons. cbn [spec_events]. apply app_nil_r. }
+        assert (NFd : nf_of (P ++ [("event", t)]) =
+                      fst (spec_items frames (dn_of names du) (get_or "seq_num" d VNone) (nf_of P) items)).
+        { unfold nf_of. rewrite EE, spec_nf_events_app. reflexivity. }
+        assert (SPG : map fst (spec_ranges G) =
+                      map fst (sp_of P) ++ map snd items ++ map fst (spec_events ds names frames (nf_of (P ++ [("event", t)])) (expand_events post))).
+        { assert (EX := f_equal expand_events EG'). rewrite expand_events_app in EX.
+          unfold spec_ranges. fold ds. fold names. fold frames. rewrite EX, spec_events_app, map_app.
+          fold (sp_of (P ++ [("event", t)])). fold (nf_of (P ++ [("event", t)])).
+          rewrite SPd, map_app, spec_items_ids, <- app_assoc. reflexivity. }
+        assert (HN := H_nexp). rewrite SPG in HN. destruct (nodup_atoms_app _ _ HN) as (_ & ND2 & D12).
+        destruct (nodup_atoms_app _ _ ND2) as (NDi & _ & _).
+        destruct (event_step G P post t ref x x1 (nf_of P) (sp_of P) C (map fst (datum_frames P)) EG H_no Jx Kx Rt Nt D)
+          as (C' & J1 & K1 & S1).
+        * fold d. fold du. destruct (vget du (descriptors P)); [exact EO1 | discriminate].
+        * exact EO2.
+        * exact EO3.
+        * exact NDi.
+        * intros kid u Hk Hu. rewrite atom_eqb_sym. apply D12; [exact Hu|]. apply in_or_app. left. now apply in_map.
+        * intros kid u Hk Hu. apply H_dis.
+          -- rewrite SPG. apply in_or_app. right. apply in_or_app. left. now apply in_map.
+          -- rewrite EG, passthrough_uids_app. apply in_or_app. now left.
+        * intros kid f Hk Hf. fold frames in Hf. unfold frames in Hf. rewrite EG, datum_frames_app, vget_app in Hf.
+          destruct (vget (snd kid) (datum_frames P)) as [v|] eqn:V.
+          -- destruct (vget_in _ _ _ V) as (k' & Hin & ->). now apply (in_map fst _ (k', v)).
+          -- exfalso. change (("event", t) :: post) with ([("event", t)] ++ post) in Hf.
+             rewrite datum_frames_app in Hf. cbn [app] in Hf.
+             assert (datum_frames [("event", t)] = []) by reflexivity. rewrite H in Hf. cbn [app] in Hf.
+             assert (A : is_atom (snd kid) = true).
+             { apply (nodup_atoms_all_atoms _ NDi). now apply in_map. }
+             assert (X := late_frame_is_finding post (seen ++ data_values "event" t) (snd kid) f NP2).
+             rewrite NF2 in X. discriminate X; auto.
+             rewrite existsb_app. apply orb_true_iff. right. apply existsb_atom_in; [exact A|].
+             now apply (ext_items_in_data_values' (descriptors G)).
+        * fold frames in J1. fold names in J1. fold d in J1. fold du in J1. fold items in J1.
+          rewrite <- SPd, <- NFd in J1.
+          assert (DFe : datum_frames (P ++ [("event", t)]) = datum_frames P) by (apply df_nondatum; reflexivity).
+          eapply (IH (P ++ [("event", t)]) refs' x1 (S i) m C' (seen ++ data_values "event" t)); eauto.
+          -- congruence.
+          -- now rewrite DFe.
+          -- rewrite descriptors_app. cbn. rewrite app_nil_r. exact EO4.
+          -- intros u Hu. rewrite SPd, map_app, spec_items_ids in Hu. apply in_app_or in Hu as [Hu | Hu].
+             ++ apply existsb_app_l. now apply Seen.
+             ++ rewrite existsb_app. apply orb_true_iff. right.
+                apply in_map_iff in Hu as (kid & <- & Hk).
+                apply existsb_atom_in.
+                ** apply (nodup_atoms_all_atoms _ NDi). now apply in_map.
+                ** now apply (ext_items_in_data_values' (descriptors G)).
+      + (* any other document *)
+        destruct (other_step P post n t ref x x1 C seen EG Nev Nstop NPe NPd Jx Kx Rt NF1 Seen D) as (J1 & K1 & S1).
+        destruct (sp_of_nonevent P n t Nev NPe) as [E1 E2].
+        assert (DV : data_values n t = []).
+        { unfold data_values. destruct t; try reflexivity. destruct (dget "data" kv) as [[]|]; try reflexivity.
+          now rewrite Nev, NPe. }
+        rewrite DV, app_nil_r in NF2.
+        eapply (IH (P ++ [(n, t)]) refs' x1 (S i) m C seen); eauto.
+        * congruence.
+        * cbn [events_ok] in EO. rewrite Nev in EO. destruct (String.eqb n "descriptor") eqn:Nd.
+          -- apply String.eqb_eq in Nd. subst n. rewrite descriptors_app. exact EO.
+          -- rewrite descriptors_app. unfold descriptors at 2. cbn. rewrite Nd. cbn. rewrite app_nil_r. exact EO.
+        * now rewrite E1.
+  Qed.
+
+End Main.
+
+(* ================================================================== from the final state to the boolean statement *)
+
+Lemma atoms_eqb_refl : forall l, forallb is_atom l = true -> atoms_eqb l l = true.
+Proof.
+  induction l as [|x l IH]; intros H; [reflexivity|]. simpl in *. apply andb_true_iff in H as [H1 H2].
+  now rewrite atom_eqb_refl, IH.
+Qed.
+
+Lemma count_val_perm : forall u l l', Permutation l l' -> count_val u l = count_val u l'.
+Proof. intros u l l' P. induction P; simpl; try lia. Qed.
+
+Lemma same_multiset_perm : forall a b, Permutation a b -> same_multiset a b = true.
+Proof.
+  intros a b P. unfold same_multiset. rewrite (Permutation_length P), Nat.eqb_refl. cbn.
+  apply forallb_forall. intros u _. rewrite (count_val_perm u _ _ P). apply Nat.eqb_refl.
+Qed.
+
+Lemma filter_perm : forall (f : val -> bool) l l', Permutation l l' -> Permutation (filter f l) (filter f l').
+Proof.
+  intros f l l' P. induction P; simpl.
+  - constructor.
+  - destruct (f x); [now constructor | assumption].
+  - destruct (f x), (f y); try apply Permutation_refl. apply perm_swap.
+  - eapply perm_trans; eauto.
+Qed.
+
+Lemma filter_all_false : forall (f : val -> bool) l, (forall x, In x l -> f x = false) -> filter f l = [].
+Proof.
+  induction l as [|y l IH]; intros H; [reflexivity|]. simpl. rewrite (H y) by now left. apply IH. intros x Hx. apply H. now right.
+Qed.
+Lemma filter_all_true : forall (f : val -> bool) l, (forall x, In x l -> f x = true) -> filter f l = l.
+Proof.
+  induction l as [|y l IH]; intros H; [reflexivity|]. simpl. rewrite (H y) by now left. f_equal. apply IH. intros x Hx. apply H. now right.
+Qed.
+
+Lemma alloc_all_reads : forall docs s0 refs,
+  Forall (fun d : string * val => noref (snd d) = true) docs ->
+  alloc_all [] (map snd docs) = (s0, refs) ->
+  Forall2 (fun (r nd : string * val) => fst r = fst nd /\ reads s0 (snd r) (snd nd) /\ noref (snd nd) = true)
+          (combine (map fst docs) refs) docs.
+Proof.
+  intros docs s0 refs N A. apply alloc_all_spec in A as [_ R]; [|now apply Forall_map].
+  revert refs R. induction N as [|[n t] docs Nt Nd IH]; intros refs R.
+  - destruct refs; [constructor | discriminate].
+  - destruct refs as [|r refs]; [discriminate|]. simpl in R. inversion R. simpl. constructor; auto.
+Qed.
+
+Lemma J_init : forall frames s0, J frames (init_mst s0 []) [] [] [] [] [].
+Proof.
+  intros. constructor; cbn; auto; try reflexivity; try (intros; contradiction).
+Qed.
+
+Lemma K_init : forall s0, K [] (init_mst s0 []).
+Proof. intros. constructor; reflexivity. Qed.
+
+(* (b) over a whole run, as one theorem *)
+Theorem b_full : forall docs,
+  wf_b docs = true -> Forall (fun d : string * val => noref (snd d) = true) docs ->
+  r_errs (run Deep [] docs) = [] -> finding_C35_b docs = false -> b_holds_b docs = true.
+Proof.
+  intros docs W N E F. unfold wf_b in W.
+  repeat (apply andb_true_iff in W as [W ?]).
+  rename H into Wuid, H0 into Wpt, H1 into Wdis, H2 into Wnexp, H3 into Wndat, H4 into Wev, H5 into Wrf, H6 into Wndesc, H7 into Wstop, H8 into Wno.
+  apply negb_true_iff in W. apply negb_true_iff in Wno. apply negb_true_iff in Wdis.
+  rewrite expected_ids in Wnexp, Wdis.
+  unfold b_holds_b. rewrite Wno. cbn [orb].
+  unfold run in *. destruct (alloc_all [] (map snd docs)) as [s0 refs] eqn:A.
+  destruct (run_from Deep 0 (combine (map fst docs) refs) (init_mst s0 []) []) as [m errs] eqn:R. cbn [r_errs r_out] in *. subst errs.
+  assert (FR := alloc_all_reads _ _ _ N A).
+  assert (HD : forall u p, In u (map fst (spec_ranges docs)) -> In p (passthrough_uids docs) -> atom_eqb p u = false).
+  { intros u p Hu Hp. rewrite atom_eqb_sym. destruct (atom_eqb u p) eqn:Eq; [|reflexivity]. exfalso.
+    assert (X : existsb (fun u0 => existsb (atom_eqb u0) (passthrough_uids docs)) (map fst (spec_ranges docs)) = true).
+    { apply existsb_exists. exists u. split; [exact Hu|]. apply existsb_exists. eauto. }
+    congruence. }
+  destruct (run_main docs s0 Wno Wndesc Wrf Wndat Wnexp HD docs [] _ (init_mst s0 []) 0 m [] [] eq_refl FR eq_refl
+              (J_init _ _) (K_init _) Wev Wstop W F (fun u H => match H with end) R) as (F1 & Cf & F2 & F3 & F4).
+  rewrite F1, (atoms_eqb_refl _ Wuid). cbn [andb].
+  apply andb_true_iff. split.
+  - rewrite expected_ids. apply same_multiset_perm. unfold converted_uids.
+    eapply perm_trans; [apply Permutation_sym; exact F3|].
+    eapply perm_trans; [|apply filter_perm; apply Permutation_sym; exact F2].
+    rewrite filter_app. rewrite filter_all_false, filter_all_true; [apply Permutation_refl | |].
+    + intros x Hx. apply negb_true_iff. destruct (existsb (atom_eqb x) (passthrough_uids docs)) eqn:Ex; [|reflexivity].
+      apply existsb_exists in Ex as (p & Hp & Ep). rewrite atom_eqb_sym in Ep.
+      rewrite (HD x p) in Ep; [discriminate | eapply Permutation_in; eauto | exact Hp].
+    + intros x Hx. apply negb_false_iff. apply existsb_atom_in; [|exact Hx].
+      rewrite forallb_forall in Wpt. now apply Wpt.
+  - apply forallb_forall. intros [[e k] id] Hin.
+    assert (Hid : In id Cf).
+    { eapply Permutation_in; [apply Permutation_sym; exact F3|]. rewrite <- expected_ids.
+      apply (in_map (fun t : dict * string * val => snd t) _ _ Hin). }
+    destruct (F4 _ Hid) as ([a b] & R1 & R2). rewrite R1, R2. cbn. now rewrite !Z.eqb_refl.
+Qed.
